@@ -181,6 +181,72 @@ class patched:
         FakeSerial.hub = None
 
 
+class patched_socket:
+    """The same scripted device behind a TCP socket: only socket.connect, SocketIO.read/write and the selector are
+    replaced (the OS boundary); Device._readline_socket reassembles lines from the fragments handed out here."""
+
+    def __init__(self, hub, fragment=True):
+        self.hub = hub
+        self.fragment = fragment
+        self.pending = b""
+
+    def _read(self, n=256):
+        hub = self.hub
+        if hub.closed:
+            raise OSError(107, "Transport endpoint is not connected")
+        with hub.cv:
+            if not self.pending and hub.released:
+                line, ev = hub.released.pop(0)
+                self.pending, self.pending_ev = line, ev
+            if not self.pending:
+                return None                      # no data yet
+            k = max(1, len(self.pending) // 2) if self.fragment and len(self.pending) > 3 else len(self.pending)
+            out, self.pending = self.pending[:k], self.pending[k:]
+            if not self.pending:                 # the line is complete on the host's side only now
+                hub.events.append(self.pending_ev)
+                if self.pending_ev["k"] == "rel":
+                    hub.nrel_seen += 1
+            return out
+
+    def _write(self, data):
+        self.hub.on_write(bytes(data))
+        return len(data)
+
+    def _select(self, timeout=None):
+        hub = self.hub
+        with hub.cv:
+            if not self.pending and not hub.released and not hub.closed:
+                hub.cv.wait(min(timeout or 0.01, 0.01))
+            return [("ready", 1)] if (self.pending or hub.released or hub.closed) else []
+
+    def __enter__(self):
+        import selectors
+        outer = self
+
+        class FakeSelector:
+            def register(self, *a, **k):
+                return None
+
+            def unregister(self, *a, **k):
+                return None
+
+            def select(self, timeout=None):
+                return outer._select(timeout)
+
+            def close(self):
+                return None
+        self.ps = [mock.patch("socket.socket.connect"), mock.patch("socket.SocketIO.read", side_effect=self._read),
+                   mock.patch("socket.SocketIO.write", side_effect=self._write),
+                   mock.patch("selectors.DefaultSelector", FakeSelector)]
+        for p in self.ps:
+            p.start()
+        return self.hub
+
+    def __exit__(self, *a):
+        for p in self.ps:
+            p.stop()
+
+
 def strip_job_line(raw):
     """Independent reading of 'executable part of a job line': text before ';', trimmed."""
     i = raw.find(";")
@@ -284,7 +350,7 @@ def run_direct(stmts, acks, status=None, late_hs=False, settle=0.02, do_disconne
     late_hs: the ok of the second start-up M110 is released only after the first write() began."""
     import gscrib.writers.printrun_writer as pw
     from gscrib.excepts import DeviceError
-    from gscrib.writers import SerialWriter
+    from gscrib.writers import SerialWriter, SocketWriter
     status = status or {}
     hub = Hub(mode="manual")
     hub.online = True           # every write of the host is logged as tx; the probe is answered below
@@ -322,8 +388,8 @@ def run_direct(stmts, acks, status=None, late_hs=False, settle=0.02, do_disconne
 
     old_poll = pw.POLLING_INTERVAL
     pw.POLLING_INTERVAL = 0.003
-    with patched(hub):
-        w = SerialWriter("/mocked/port", 115200) if mode == "serial" else None
+    with (patched(hub) if mode == "serial" else patched_socket(hub)):
+        w = SerialWriter("/mocked/port", 115200) if mode == "serial" else SocketWriter("127.0.0.1", 8000)
         w.set_timeout(5.0 if not slow else slow[1])      # slow = (statement, writer timeout, acknowledgement latency)
         th = threading.Thread(target=lambda: results.__setitem__("connect", _guard(w.connect)), daemon=True)
         th.start()
@@ -401,7 +467,7 @@ def run_direct(stmts, acks, status=None, late_hs=False, settle=0.02, do_disconne
             r = e.get("readings") or {}
             x["readings"] = {l: _qr(r.get(l)) for l in LETTERS}
         ev.append(x)
-    return {"meta": {"late_hs": late_hs}, "ev": ev}
+    return {"meta": {"late_hs": late_hs, "mode": mode}, "ev": ev}
 
 
 def _guard(fn):
